@@ -2,7 +2,7 @@
 import vf, ntt_common as nc
 
 def configs(tier):
-    c = [(16, 4, 2), (32, 4, 2), (64, 2, 2), (32, 8, 1)]
+    c = [(16, 4, 2), (32, 4, 2), (64, 2, 2), (32, 8, 1), (64, 32768, 4)]     # the last one is exactly 1 MiB of raw data
     if tier != "quick": c += [(16, 16, 2), (32, 16, 3), (64, 8, 3), (64, 1, 1)]
     return c
 
@@ -13,6 +13,11 @@ def gen(ck, params, cfgs):
     for cfg in cfgs:
         w, n, nm = cfg; wb = w // 8; N = n * nm; B = 1 << w
         head = "%d %d %d" % cfg
+        if N > 4096:      # large object: raw writer/reader only, one pattern (size = power-of-two number of bytes)
+            ws = [(i * 2654435761 + 12345) % B for i in range(N)]
+            cases.append(("ser large (1 MiB)", cfg, "ser %s poly %s" % (head, " ".join(map(str, ws)))))
+            cases.append(("deser large (1 MiB)", cfg, "deser %s poly %s" % (head, "".join(le(v, wb) for v in ws))))
+            continue
         pats = [[rng.randrange(B) for _ in range(N)], [B - 1] * N, [0] * N, [(1 << (8 * (i % wb))) for i in range(N)], [rng.randrange(params[w]["rows"][i // n][0]) for i in range(N)]]
         for pk in ("poly", "polyp"):
             for ws in pats:
